@@ -410,15 +410,17 @@ class FillRequest(object):
         or, otherwise, the output of *el.request* is stored in a buffer,
         until it is requested.
         """
-        if self._n_count and not self._n_count % self.bufsize:
+        if self._n_count == self.bufsize:
+            # a complete slice was filled, but not yet requested
             if self._buffer_input:
                 self._buffer_in.append(value)
                 return
             else:
                 # add output to the output buffer
-                self._buffer_out.extend(self.request())
-                # don't reset because need to know that fill was called
-                # self._n_count = 0
+                self._buffer_out.extend(self._el_request())
+                if self._reset:
+                    self._el_reset()
+                self._n_count = 0
 
         self._el_fill(value)
         self._n_count += 1
@@ -429,60 +431,46 @@ class FillRequest(object):
         If input or output buffers were filled, all their contents
         are processed and yielded.
         """
-        # yield what was filled into the element
-        if self._n_count >= self.bufsize:
+        if not self._buffer_input:
+            # results for the previous complete slices
+            # were computed when filling _buffer_out
+            buffer_out = self._buffer_out
+            self._buffer_out = []
+            for val in buffer_out:
+                yield val
+
+        # yield what was filled into the element.
+        # It is important that request is not called
+        # when not enough values were filled after last request
+        if (self._n_count == self.bufsize
+            or (self._n_count and self._yield_on_remainder)):
             for val in self._el_request():
                 yield val
             if self._reset:
                 self._el_reset()
-            # it is important that request is not called
-            # when not enough values were filled after last request
-            self._n_count = self._n_count % self.bufsize
+            self._n_count = 0
 
-        # process buffers.
-        # Buffers are always filled after the element,
-        # therefore the order is correct.
         if not self._buffer_input:
-            # all results are in _buffer_out
-            for val in self._buffer_out:
-                yield val
-            if self._yield_on_remainder:
+            return
+
+        # fill the element from _buffer_in slice by slice and yield.
+        # Values in the buffer were always filled after the element,
+        # therefore the order is correct.
+        bufsize = self.bufsize
+        buffer_in = self._buffer_in
+        self._buffer_in = []
+        for ind in range(0, len(buffer_in), bufsize):
+            for val in buffer_in[ind:ind+bufsize]:
+                self._el_fill(val)
+                self._n_count += 1
+            # the last slice may be incomplete.
+            # In that case it remains in the element.
+            if (self._n_count == bufsize or self._yield_on_remainder):
                 for val in self._el_request():
                     yield val
-            # reset was already called when filling _buffer_out
-            return
-        else:
-            # fill the buffer from _buffer_in and yield
-            nfills = 0
-            bufsize = self.bufsize
-            buffer_in = self._buffer_in
-            while True:
-                if nfills == bufsize:
-                    for val in self._el_request():
-                        yield val
-                    if self._reset:
-                        self._el_reset()
-                    nfills = 0
-                    del buffer_in[:bufsize]
-                    # should be slower, because a slice below
-                    # copies elements
-                    ## self._buffer_in = self._buffer_in[bufsize:]
-                    continue
-
-                # fill the element with values from buffer
-                try:
-                    val = buffer_in[nfills]
-                except IndexError:
-                    if self._yield_on_remainder:
-                        for val in self._el_request():
-                            yield val
-                    break
-                else:
-                    self._el_fill(val)
-                    nfills += 1
-
-        if self._reset:
-            self._el_reset()
+                if self._reset:
+                    self._el_reset()
+                self._n_count = 0
 
     def reset(self):
         """Reset *el* (ignoring the initialization setting)."""
